@@ -2,6 +2,7 @@ package database
 
 import (
 	"github.com/sahilm/fuzzy"
+	"math"
 )
 
 // ---- C07: typo fallback only when nothing matches, and only genuine matches ----
@@ -85,6 +86,7 @@ func c07Matcher(pl, tl int) {
 
 func VerifHarness_C07_Matcher23() { c07Matcher(verifIntRange("pl", 1, 2), verifIntRange("tl", 0, 3)) }
 func VerifHarness_C07_Matcher35() { c07Matcher(verifIntRange("pl", 1, 3), verifIntRange("tl", 0, 5)) }
+func VerifHarness_C07_Matcher24() { c07Matcher(verifIntRange("pl", 1, 2), verifIntRange("tl", 0, 4)) }
 
 // (3) fallback results: genuine matches, threshold honoured, best first, never empty-handed
 // c07DB: long unbroken words, so that in-word matches collect penalties (negative raw scores)
@@ -121,18 +123,19 @@ func c07Fallback(n int) {
 		return // answered lexically: not the fallback
 	}
 	res := db.SearchUniversal(q, o)
-	floor := 0.0
-	if thr != 0 {
-		floor = float64(thr+100) / 100
-		if floor > 1 {
-			floor = 1
-		}
-	}
 	for k, r := range res {
 		text := r.Command.Command + " " + r.Command.Description
 		verifAssert(c07Subseq(q, text), "C07: every fallback result contains the query's characters in order")
-		if thr != 0 && thr > -1000000 && thr < 1000000 {
-			verifAssert(r.Score >= floor, "C07: every fallback result is at least as good as the requested threshold")
+		// the threshold is on the matcher's integer scale; a result's score is (raw+100)/100
+		// clamped to [0,1]. Stated on integers (a quotient of the symbolic threshold would put
+		// a floating-point division in front of the solver): raw >= thr, up to the clamp.
+		switch {
+		case thr >= 1:
+			verifAssert(r.Score >= 1, "C07: every fallback result is at least as good as the requested threshold")
+		case thr != 0 && thr >= -100:
+			verifAssert(int(math.Round(r.Score*100))-100 >= thr, "C07: every fallback result is at least as good as the requested threshold")
+		default:
+			verifAssert(r.Score >= 0, "C07: every fallback result is at least as good as the requested threshold")
 		}
 		if k > 0 {
 			verifAssert(res[k-1].Score >= r.Score, "C07: fallback results are ordered best match first")
